@@ -332,12 +332,19 @@ def build_sysblock(env, disk):
             continue
         dd = os.path.join(root, d["name"].replace("/", "!"))
         os.mkdir(dd)
+        # what real kernels publish about the device's own sector size (4K-native disks say 4096): the sector *counters*
+        # of diskstats / sysfs stat are in 512-byte units regardless
+        ss = (512, 512, 4096, 4096, 520)[sum(map(ord, d["name"])) % 5]
+        os.mkdir(os.path.join(dd, "queue"))
+        for fn in ("hw_sector_size", "logical_block_size", "physical_block_size"):
+            with open(os.path.join(dd, "queue", fn), "wb") as f:
+                f.write(b"%d\n" % ss)
         if disk["mode"] == "sysfs":
             with open(os.path.join(dd, "stat"), "wb") as f:
                 f.write(render_sysfs_stat(disk, d))
             with open(os.path.join(dd, "size"), "wb") as f:
                 f.write(b"1953525168\n")
-            for sub in ("queue", "holders", "power"):
+            for sub in ("holders", "power"):
                 os.mkdir(os.path.join(dd, sub))
             with open(os.path.join(dd, "queue", "rotational"), "wb") as f:
                 f.write(b"0\n")
